@@ -1,4 +1,5 @@
 import CgreenModel.Model.Select
+import CgreenModel.Lemmas.Lines
 /-!
 # C09 — cgreen-runner runs exactly the tests that are defined and selected
 -/
@@ -248,5 +249,168 @@ theorem C09_F20_witness :
 
 example : good "can_match_test_name".toList = true := by decide +kernel
 example : glob "T*:con*s".toList "Tcp:connects".toList = true := by decide +kernel
+
+/-! ### From the symbol listing to the list of tests -/
+namespace Lines
+
+theorem isPrefixOf_snoc (a : Char) : ∀ (pat x : Str), a ∉ pat → pat.isPrefixOf (x ++ [a]) = pat.isPrefixOf x
+  | [], x, _ => by simp
+  | p :: ps, [], h => by
+    have : (p == a) = false := by simp at h; simpa using fun e => h.1 e.symm
+    simp [List.isPrefixOf, this]
+  | p :: ps, y :: ys, h => by
+    have := isPrefixOf_snoc a ps ys (by simp at h ⊢; exact h.2)
+    simp [List.isPrefixOf, this]
+
+theorem findSub_snoc (a : Char) (pat : Str) (hp : pat ≠ []) (ha : a ∉ pat) :
+    ∀ x : Str, findSub pat (x ++ [a]) = (findSub pat x).map (· ++ [a])
+  | [] => by
+    have he : pat.isEmpty = false := by cases pat with | nil => exact absurd rfl hp | cons _ _ => rfl
+    have h1 := isPrefixOf_snoc a pat [] ha
+    simp only [List.nil_append] at h1
+    have h2 : pat.isPrefixOf [] = false := by cases pat with | nil => exact absurd rfl hp | cons _ _ => rfl
+    simp [findSub, h1, h2, he]
+  | y :: ys => by
+    have h1 := isPrefixOf_snoc a pat (y :: ys) ha
+    simp only [List.cons_append] at h1
+    simp only [List.cons_append, findSub, h1]
+    split
+    · simp
+    · exact findSub_snoc a pat hp ha ys
+
+/-- The first occurrence of a pattern is not before the first occurrence of its first character. -/
+theorem findSub_skip (p : Char) (ps t : Str) : ∀ pre : Str, (∀ c ∈ pre, c ≠ p) →
+    findSub (p :: ps) (pre ++ (p :: ps) ++ t) = some ((p :: ps) ++ t)
+  | [], _ => by
+    have : (p :: ps).isPrefixOf ((p :: ps) ++ t) = true := by
+      rw [List.isPrefixOf_iff_prefix]; exact ⟨t, rfl⟩
+    simp only [List.nil_append, List.cons_append] at this ⊢
+    simp [findSub, this]
+  | c :: pre, h => by
+    have hc : (p == c) = false := by
+      have := h c List.mem_cons_self
+      simp; exact fun e => this e.symm
+    have ih := findSub_skip p ps t pre (fun d hd => h d (List.mem_cons_of_mem _ hd))
+    simp only [List.cons_append, List.append_assoc] at ih ⊢
+    simp [findSub, List.isPrefixOf, hc, ih]
+
+theorem findSub_exists (pat b : Str) : ∀ a : Str, (findSub pat (a ++ pat ++ b)).isSome = true
+  | [] => by
+    have hpre : pat.isPrefixOf (pat ++ b) = true := by rw [List.isPrefixOf_iff_prefix]; exact ⟨b, rfl⟩
+    simp only [List.nil_append]
+    cases h : pat ++ b with
+    | nil =>
+      have : pat = [] := (List.append_eq_nil_iff.mp h).1
+      simp [findSub, this]
+    | cons c s => rw [h] at hpre; simp [findSub, hpre]
+  | c :: a => by
+    simp only [List.cons_append, findSub]
+    split
+    · rfl
+    · exact findSub_exists pat b a
+
+theorem splitLines_line (l t : Str) (h : '\n' ∉ l) : splitLines (l ++ '\n' :: t) = (l ++ ['\n']) :: splitLines t := by
+  induction l with
+  | nil => simp [splitLines]
+  | cons c l ih =>
+    have hc : c ≠ '\n' := by intro e; apply h; simp [e]
+    have := ih (by intro hm; apply h; simp [hm])
+    simp only [List.cons_append, splitLines, hc, if_false, this]
+
+theorem stripNewline_snoc (l : Str) : stripNewline (l ++ ['\n']) = l := by simp [stripNewline]
+
+/-- One line of a symbol listing: a test (`<address> D CgreenSpec__<context>__<name>__`, where what precedes the
+symbol does not contain the symbol's first letter) or anything that does not mention `CgreenSpec__`. -/
+inductive Entry
+  | test (pre : Str) (i : Item)
+  | other (l : Str)
+
+def Entry.line : Entry → Str
+  | .test pre i => pre ++ definitionMark ++ specSymbol i
+  | .other l => l
+
+def Entry.item : Entry → Option Item
+  | .test _ i => some i
+  | .other _ => none
+
+def Entry.ok : Entry → Prop
+  | .test pre i => (∀ c ∈ pre, c ≠ 'C' ∧ c ≠ '\n') ∧ good i.ctx = true ∧ good i.name = true ∧ '\n' ∉ i.ctx ∧ '\n' ∉ i.name
+  | .other l => findSub prefixSpec l = none ∧ '\n' ∉ l
+
+def listing (es : List Entry) : Str := es.flatMap (fun e => e.line ++ ['\n'])
+
+theorem entry_no_newline (e : Entry) (h : e.ok) : '\n' ∉ e.line := by
+  cases e with
+  | other l => exact h.2
+  | test pre i =>
+    obtain ⟨hpre, _, _, hc, hn⟩ := h
+    have h1 : '\n' ∉ definitionMark := by decide
+    have h2 : '\n' ∉ prefixSpec := by decide
+    have h3 : '\n' ∉ sep := by decide
+    intro hm
+    simp only [Entry.line, specSymbol, List.mem_append] at hm
+    rcases hm with (hm | hm) | ((((hm | hm) | hm) | hm) | hm)
+    · exact (hpre _ hm).2 rfl
+    · exact h1 hm
+    · exact h2 hm
+    · exact hc hm
+    · exact h3 hm
+    · exact hn hm
+    · exact h3 hm
+
+theorem splitLines_listing : ∀ es : List Entry, (∀ e ∈ es, e.ok) →
+    splitLines (listing es) = es.map (fun e => e.line ++ ['\n'])
+  | [], _ => rfl
+  | e :: es, h => by
+    have ih := splitLines_listing es (fun x hx => h x (List.mem_cons_of_mem _ hx))
+    have hn := entry_no_newline e (h e List.mem_cons_self)
+    have : listing (e :: es) = e.line ++ '\n' :: listing es := by simp [listing]
+    rw [this, splitLines_line _ _ hn, ih]; rfl
+
+theorem itemOfLine_entry (e : Entry) (h : e.ok) : itemOfLine (e.line ++ ['\n']) = e.item := by
+  have hs1 := findSub_snoc '\n' prefixSpec (by decide) (by decide) e.line
+  have hs2 := findSub_snoc '\n' definitionMark (by decide) (by decide) e.line
+  cases e with
+  | other l =>
+    have : findSub prefixSpec l = none := h.1
+    simp only [Entry.line] at hs1
+    simp [itemOfLine, specOfLine, hs1, this, Entry.item, Entry.line]
+  | test pre i =>
+    obtain ⟨hpre, hc, hn, _, _⟩ := h
+    have hfind : findSub prefixSpec (pre ++ definitionMark ++ specSymbol i) = some (specSymbol i) := by
+      have hp : prefixSpec = 'C' :: "greenSpec__".toList := by decide
+      have := findSub_skip 'C' "greenSpec__".toList (i.ctx ++ sep ++ i.name ++ sep) (pre ++ definitionMark)
+        (by intro c hm; rcases List.mem_append.mp hm with hm | hm
+            · exact (hpre c hm).1
+            · revert hm; simp [definitionMark]; rintro (rfl | rfl | rfl) <;> decide)
+      simp only [specSymbol, hp, List.append_assoc] at this ⊢
+      exact this
+    have hdef : (findSub definitionMark (pre ++ definitionMark ++ specSymbol i)).isSome = true :=
+      findSub_exists definitionMark (specSymbol i) pre
+    simp only [Entry.line] at hs1 hs2
+    obtain ⟨d, hd⟩ := Option.isSome_iff_exists.mp hdef
+    simp only [itemOfLine, specOfLine, hs1, hs2, hfind, hd, Option.map_some, stripNewline_snoc, Entry.item, Entry.line]
+    exact C09_discover i hc hn
+
+end Lines
+
+open Lines in
+/-- Discovery reads the listing right: whatever the lengths of the lines and whatever the size (from 3 bytes) of the
+buffer they are read into, the tests found are exactly the tests listed, each once, in the listing's order. -/
+theorem C09_discovery (size : Nat) (hsize : 3 ≤ size) (es : List Entry) (hok : ∀ e ∈ es, e.ok) :
+    discover size (listing es) = es.filterMap Entry.item := by
+  simp only [discover, allLines_spec _ size (listing es) hsize (Nat.le_refl _), splitLines_listing es hok]
+  induction es with
+  | nil => rfl
+  | cons e es ih =>
+    have he := itemOfLine_entry e (hok e List.mem_cons_self)
+    have := ih (fun x hx => hok x (List.mem_cons_of_mem _ hx))
+    simp only [List.map_cons, List.filterMap_cons, he, this]
+
+open Lines in
+example : discover 20 (listing [.other "0000000000001000 T _init".toList,
+      .test "0000000000004010".toList ⟨"Ctx".toList, "a_rather_long_test_name".toList⟩,
+      .test "0000000000004018".toList ⟨"default".toList, "b".toList⟩])
+    = [⟨"Ctx".toList, "a_rather_long_test_name".toList⟩, ⟨"default".toList, "b".toList⟩] := by decide +kernel
 
 end Cgreen
